@@ -3,6 +3,7 @@ package rules
 import (
 	"fmt"
 	"go/ast"
+	"sort"
 	"strings"
 
 	"golang.org/x/tools/go/ssa"
@@ -26,6 +27,7 @@ func c15(r *core.Run) {
 	r.Rule("C15/R2", "refund = record: in ShutdownProvider amount ⊵ loaded Collateral.Amount only (⋫ Param(CollateralPrice)); recipient ⊵ signer; every committing path after the send deletes the collateral record and the provider; all effects behind Found(provider)=true")
 	r.Rule("C15/R3", "closed world: only these two handlers write Collateral records or name the collateral module account in bank calls; the account is in maccPerms")
 	r.Rule("C15/R4", "bank errors propagate")
+	r.Rule("C15/R5", "key agreement: every Get/Set/Delete of provider and collateral records in the two handlers uses the same key term")
 	hs, err := p.Handlers()
 	if err != nil {
 		r.Undecided("C15/R1", "handlers", "", err.Error())
@@ -174,6 +176,42 @@ func c15(r *core.Run) {
 		}
 	}
 	r.Check(inPerms, "C15/R3", "app:maccPerms:collateral-escrow", "app/app.go", "collateral escrow is a registered module account", "the collateral escrow account is not in the app's module account permissions: sends to it fail or it is not blocked")
+	// R5 key agreement: every provider / collateral record touched by the two handlers is keyed by the same term
+	terms := map[string][]string{}
+	for _, h := range []*core.Handler{hi, hd} {
+		allInstrs(h.Fn, func(in ssa.Instruction) {
+			call, ok := in.(ssa.CallInstruction)
+			if !ok {
+				return
+			}
+			for _, pre := range []string{stCollateral, stProviders} {
+				for _, kind := range []string{"Get", "Set", "Delete"} {
+					if cal, op := directOpCallee(p, call, kind, pre); cal != nil {
+						t := strings.Join(keyTermsAtCall(p, call, cal, op), "/")
+						terms[t] = append(terms[t], h.Key()+" "+kind+" "+pre+" @"+p.InstrPos(call))
+					}
+				}
+			}
+		})
+	}
+	var ks []string
+	for k := range terms {
+		ks = append(ks, k)
+	}
+	sort.Strings(ks)
+	nSites := 0
+	for _, v := range terms {
+		nSites += len(v)
+	}
+	if len(ks) == 1 && nSites >= 7 {
+		r.Ok("C15/R5", "provider-and-collateral-keys-agree", "", fmt.Sprintf("%d accesses all keyed by %s", nSites, ks[0]))
+	} else {
+		var where []string
+		for _, k := range ks {
+			where = append(where, k+": "+strings.Join(terms[k], "; "))
+		}
+		r.Violation("C15/R5", "provider-and-collateral-keys-agree", "", fmt.Sprintf("registration and shutdown key the provider and collateral records by %d different terms %v (%d sites): a collateral recorded under one spelling of the address is not found (and not refunded) under another", len(ks), ks, nSites), where...)
+	}
 	// R4
 	errorsPropagate(r, "C15/R4", hi)
 	errorsPropagate(r, "C15/R4", hd)
